@@ -1,7 +1,21 @@
+import Std.Data.HashMap
 import Verif.Model.MSA
+import Verif.Model.Refine
 import Verif.Driver.Util
 namespace Verif.Driver
-open Verif.MSA
+open Verif.MSA Verif.Refine
+
+/-- sparse scorer table: tokens `a:b:bits` -/
+def scorerTbl (toks : List String) : Std.HashMap (Nat × Nat) Float :=
+  toks.foldl (fun m t =>
+    match t.splitOn ":" with
+    | [a, b, v] => m.insert (nat! a, nat! b) (flt! v)
+    | _ => m) {}
+
+/-- lookup in a table built once (a missing entry is a NaN: the comparison with the real score then fails) -/
+def scorerOf (tbl : Std.HashMap (Nat × Nat) Float) (a b : Nat) : Float := (tbl.get? (a, b)).getD (0.0 / 0.0)
+
+def kindOf (s : String) : Kind := if s == "t" then .t else .c
 
 /-- rows separated by "/" tokens -/
 def splitRows (toks : List String) : List (List Nat) :=
@@ -23,6 +37,18 @@ def handleMSA (fs : List (List String)) : Option String :=
     some ("M " ++ rowsStr (reduceGapSites (nat! g) (splitRows a)))
   | [["iterfinal"], [s0, s1]] =>
     some (if (flt! s1) < (flt! s0) then "old" else "new")
+  | [["sop"], [k], [gop, gw], tbl, msa] =>
+    let t := scorerTbl tbl
+    some ("S " ++ fltOut (sumOfPairs (kindOf k) (scorerOf t) (flt! gop) (flt! gw) (splitRows msa)))
+  | [["iterpass"], [k], [gop, gw], tbl, before, cand, [nidx]] =>
+    -- the whole `_iter(check='final')` pass on the observed candidate: score before, score of the candidate, decision
+    let t := scorerTbl tbl
+    let sp := sumOfPairs (kindOf k) (scorerOf t) (flt! gop) (flt! gw)
+    let b := splitRows before
+    let c := splitRows cand
+    let steps : List Step := (List.replicate (nat! nidx) (fun x => x)).set 0 (fun _ => c)
+    let out := iterPass sp steps b
+    some ("P " ++ fltOut (sp b) ++ " " ++ fltOut (sp c) ++ " | " ++ rowsStr out)
   | [["prog"], [g], seqs, steps] =>
     -- steps: tokens "m,n:fa:fb" with fa, fb strings of 0/1
     let st : List PStep := steps.map fun t =>
